@@ -451,12 +451,15 @@ func extractIntersectionValue[T any, R any](value R) T {
 	switch v := any(value).(type) {
 	case *any:
 		if v != nil {
-			return any(*v).(T) //nolint:unconvert // generic constraint conversion
+			// A nil result cannot be asserted to T (not even to any): zero T.
+			r, _ := any(*v).(T) //nolint:unconvert // generic constraint conversion
+			return r
 		}
 		var zero T
 		return zero
 	default:
-		return any(value).(T)
+		r, _ := any(value).(T)
+		return r
 	}
 }
 
